@@ -10,6 +10,7 @@ func I32() int32                   { panic("engine") }
 func I64() int64                   { panic("engine") }
 func Int() int                     { panic("engine") }
 func Bool() bool                   { panic("engine") }
+func ByteIn(alphabet string) byte  { panic("engine") }
 func Bytes(n int) []byte           { panic("engine") }
 func String(n int) string          { panic("engine") }
 func Len(max int) int              { panic("engine") }
